@@ -699,6 +699,12 @@ func chunkingSearch(w *W) {
 			run(f.Content, "corpus-file:"+f.Test)
 		}
 	}
+	// (b2') every place where the lexer looks one character ahead, with a multi-byte character as that character (a read
+	// boundary inside it must not change what the look-ahead sees), plus NUL and invalid bytes at such places
+	for i, s := range []string{"SELECT 1_é FROM t", "SELECT 1.é", "SELECT 1_ю, 2.я, 3eж", "SELECT a.é, b.1é, c.1_é", "SELECT x-é, y/é, z:é, w|é, v<é, u>é, q!é, p=é", "SELECT 'a'é, \"b\"é, `c`é", "SELECT @é, @@é, $é, {é}",
+		"SELECT 0xé, 0bé, 1eé, 1.5eé, .5é", "SELECT -é, --é\n1", "SELECT /é/ /*é*/ 1", "SELECT 1;\x00 SELECT 2", "SELECT 1 \x00", "SELECT é\x00é", "SELECT 1_\xff, 2.\xff, a.\xff", "SELECT 😀.😀, 1_😀, 1.😀"} {
+		run(s, fmt.Sprintf("lookahead-multibyte:%d", i))
+	}
 	// (b3) straddlers
 	for i, s := range straddlers(w) {
 		run(s, fmt.Sprintf("straddle:%d", i))
